@@ -7,7 +7,8 @@
 (***************************************************************************)
 EXTENDS Integers, Sequences, FiniteSets, TLC
 
-Routes == {"root", "peers", "add", "delete", "set", "set-torrent", "junk", "torrent-dir", "torrent-file", "torrent-meta", "playlist", "subdir", "file"}
+Routes == {"root", "peers", "add", "delete", "set", "set-torrent", "junk", "torrent-dir", "torrent-file", "torrent-meta", "playlist", "subdir", "file",
+           "single-dir", "single-playlist", "single-dirplaylist"}   \* the same views of a single-file torrent (its name is the file name)
 Methods == {"GET", "HEAD", "POST", "PUT", "DELETE"}
 \* host classes: local ones, foreign DNS names (with and without port), the same name in capitals, none
 Hosts == {"localhost:p", "127.0.0.1:p", "[::1]:p", "evil.example:p", "evil.example", "localhost.evil.example:p", "LOCALHOST:p", "empty"}
@@ -16,11 +17,12 @@ Local(h)   == h \in {"localhost:p", "127.0.0.1:p", "[::1]:p"}
 Changes(r) == r \in {"add", "delete", "set", "set-torrent"}
 
 \* which hostile sources a successfully rendered page shows
-Sources == {"name", "dir-component", "file-component", "tracker-url", "tracker-error", "webseed-url", "known-version"}
+Sources == {"name", "dir-component", "file-component", "tracker-url", "tracker-error", "webseed-url", "known-version", "peer-id-code", "single-name"}
 Shown(r) == CASE r = "root"        -> {"name", "dir-component", "file-component"}
               [] r = "torrent-dir" -> {"name", "dir-component", "file-component"}
               [] r = "subdir"      -> {"name", "dir-component", "file-component"}
-              [] r = "peers"       -> {"name", "tracker-url", "tracker-error", "webseed-url", "known-version"}
+              [] r = "peers"       -> {"name", "tracker-url", "tracker-error", "webseed-url", "known-version", "peer-id-code"}
+              [] r = "single-dir"  -> {"single-name"}
               [] OTHER             -> {}
 
 VARIABLES r, m, h
@@ -32,4 +34,7 @@ Spec == Init /\ [][Next]_<<r, m, h>>
 Expect == IF Foreign(h) \/ h = "empty" THEN "refused" ELSE IF Local(h) THEN "served" ELSE "either"
 \* a refused request changes nothing, whatever the route
 RefusedIsInert == Expect = "refused" => TRUE
+\* routes that produce a playlist, and the number of files it lists: exactly 1 + 2n lines, whatever the names contain
+Playlist(rt) == rt \in {"playlist", "subdir", "single-playlist", "single-dirplaylist"}
+PlaylistFiles(rt) == CASE rt = "playlist" -> 3 [] rt = "subdir" -> 2 [] OTHER -> 1
 =============================================================================
